@@ -7,10 +7,12 @@ package cache
 
 import (
 	"context"
+	"errors"
 	"fmt"
 	"net"
 	"sort"
 	"strings"
+	"sync"
 	"testing"
 	"time"
 
@@ -216,6 +218,13 @@ func (u *vc04Upstream) ServeDNS(ctx context.Context, rw dnsserver.ResponseWriter
 	u.calls[vdns.QKey(req.Question[0], vdns.IsDO(req))]++
 	u.total++
 
+	switch kind, _ := vdns.KindOf(req.Question[0].Name); kind {
+	case vdns.KErr:
+		return errors.New("scripted upstream error")
+	case vdns.KSilent:
+		return nil
+	}
+
 	return rw.WriteMsg(ctx, req, vdns.Answer(req, "", false))
 }
 
@@ -223,13 +232,20 @@ func vc04Exchange(t *rapid.T, h dnsserver.Handler, req *dns.Msg) (resp *dns.Msg)
 	addr := &net.UDPAddr{IP: net.IP{192, 0, 2, 77}, Port: 5353}
 	nrw := dnsserver.NewNonWriterResponseWriter(addr, addr)
 	err := h.ServeDNS(context.Background(), nrw, req)
+	// A handler error (the server then answers SERVFAIL) and a handler that
+	// writes nothing are outcomes like any other: they are rendered as marker
+	// messages so that warm and fresh instances can be compared.
 	if err != nil {
-		t.Fatalf("ServeDNS: %v", err)
+		resp = (&dns.Msg{}).SetReply(req)
+		resp.Rcode = 3841
+
+		return resp
 	}
 
 	resp = nrw.Msg()
 	if resp == nil {
-		t.Fatalf("no response written for %v", req.Question)
+		resp = (&dns.Msg{}).SetReply(req)
+		resp.Rcode = 3842
 	}
 
 	return resp
@@ -305,8 +321,13 @@ func TestVerifC04History(t *testing.T) {
 			} else {
 				kind := vdns.Kind(rapid.IntRange(0, int(vdns.KKinds)-1).Draw(t, "kind"))
 				ti := rapid.IntRange(0, len(vdns.TTLs)-1).Draw(t, "ttlIdx")
+				name := vdns.Name(kind, ti, "cache.test.")
+				if rapid.IntRange(0, 9).Draw(t, "minimalName") == 0 {
+					name = rapid.SampledFrom(vdns.MinimalNames).Draw(t, "minimal")
+				}
+
 				q = vq{
-					name: vdns.Name(kind, ti, "cache.test."),
+					name: name,
 					qt:   rapid.SampledFrom([]uint16{dns.TypeA, dns.TypeA, dns.TypeAAAA, dns.TypeTXT, dns.TypeHTTPS, dns.TypeMX}).Draw(t, "qt"),
 					qc:   rapid.SampledFrom([]uint16{dns.ClassINET, dns.ClassINET, dns.ClassINET, dns.ClassCHAOS}).Draw(t, "qc"),
 					do:   rapid.IntRange(0, 3).Draw(t, "do") == 0,
@@ -533,4 +554,132 @@ func TestVerifC04RealTime(t *testing.T) {
 			}
 		}
 	})
+}
+
+// ---------------------------------------------------------------------------
+// (d) concurrent clients on one middleware (sampled schedules, run under the
+// race detector as well): every response equals what a fresh instance gives for
+// the same request, whoever stored or is reading the entry at the same time.
+
+func TestVerifC04Concurrent(t *testing.T) {
+	st := vstat.New("C04", "cache.concurrent",
+		"rapid: G goroutines replay pre-drawn query lists over a small pool of questions (mixed case, DO, qtype, qclass near misses) against one cache.Middleware with the real LRU; oracle: each response equals the fresh-instance answer for its own request modulo TTLs and carries its own ID and question; schedules are sampled; non-trivial = a case where at least two goroutines asked the same question; distinct by the drawn plan",
+		"shared-question")
+	st.Finish(t)
+
+	rapid.Check(t, func(t *rapid.T) {
+		type q struct {
+			name   string
+			qt, qc uint16
+			do     bool
+		}
+
+		nq := rapid.IntRange(2, 5).Draw(t, "questions")
+		pool := make([]q, nq)
+		for i := range pool {
+			kind := rapid.SampledFrom([]vdns.Kind{vdns.KA, vdns.KAMixed, vdns.KCNAME, vdns.KNX, vdns.KNodataSOA, vdns.KServfail, vdns.KRefused}).Draw(t, "kind")
+			pool[i] = q{
+				name: vdns.Name(kind, 6, "conc.test."),
+				qt:   rapid.SampledFrom([]uint16{dns.TypeA, dns.TypeAAAA, dns.TypeTXT}).Draw(t, "qt"),
+				qc:   dns.ClassINET,
+				do:   rapid.Bool().Draw(t, "do"),
+			}
+		}
+
+		g := rapid.IntRange(2, 8).Draw(t, "goroutines")
+		n := rapid.IntRange(5, 40).Draw(t, "perGoroutine")
+		plans := make([][]*dns.Msg, g)
+		used := map[int]int{}
+		for i := range plans {
+			for j := 0; j < n; j++ {
+				k := rapid.IntRange(0, nq-1).Draw(t, "which")
+				used[k]++
+				p := pool[k]
+				req := &dns.Msg{}
+				req.Id = uint16(i<<8 | j)
+				req.RecursionDesired = true
+				req.Question = []dns.Question{{Name: vdns.MixCase(t, p.name), Qtype: p.qt, Qclass: p.qc}}
+				if p.do {
+					req.SetEdns0(1232, true)
+				}
+
+				plans[i] = append(plans[i], req)
+			}
+		}
+
+		// References, computed sequentially on fresh instances.
+		want := make([][]string, g)
+		for i, plan := range plans {
+			for _, req := range plan {
+				fm := NewMiddleware(&MiddlewareConfig{Count: 10})
+				want[i] = append(want[i], vdns.Canon(vc04ExchangePlain(fm.Wrap(&vc04LockedUpstream{}), req.Copy()), vdns.CanonOpts{}))
+			}
+		}
+
+		m := NewMiddleware(&MiddlewareConfig{Count: 100})
+		h := m.Wrap(&vc04LockedUpstream{})
+		got := make([][]string, g)
+		var wg sync.WaitGroup
+		start := make(chan struct{})
+		for i := range plans {
+			wg.Add(1)
+			go func(i int) {
+				defer wg.Done()
+				<-start
+				for _, req := range plans[i] {
+					got[i] = append(got[i], vdns.Canon(vc04ExchangePlain(h, req.Copy()), vdns.CanonOpts{}))
+				}
+			}(i)
+		}
+
+		close(start)
+		wg.Wait()
+
+		shared := false
+		for _, c := range used {
+			shared = shared || c > 1
+		}
+
+		cls, nt := "", ""
+		if shared {
+			cls, nt = "shared-question", fmt.Sprint(plans)
+		}
+
+		st.Case(nt, cls)
+		for i := range plans {
+			for j := range plans[i] {
+				if got[i][j] != want[i][j] {
+					t.Fatalf("goroutine %d query %d (%v) among %d goroutines:\nconcurrent %s\nalone      %s", i, j, plans[i][j].Question, g, got[i][j], want[i][j])
+				}
+			}
+		}
+	})
+}
+
+// vc04LockedUpstream is the reference upstream without call counting (safe for
+// concurrent use).
+type vc04LockedUpstream struct{}
+
+func (vc04LockedUpstream) ServeDNS(ctx context.Context, rw dnsserver.ResponseWriter, req *dns.Msg) (err error) {
+	return rw.WriteMsg(ctx, req, vdns.Answer(req, "", false))
+}
+
+// vc04ExchangePlain is vc04Exchange without a *rapid.T (callable from
+// goroutines).
+func vc04ExchangePlain(h dnsserver.Handler, req *dns.Msg) (resp *dns.Msg) {
+	addr := &net.UDPAddr{IP: net.IP{192, 0, 2, 77}, Port: 5353}
+	nrw := dnsserver.NewNonWriterResponseWriter(addr, addr)
+	if err := h.ServeDNS(context.Background(), nrw, req); err != nil {
+		resp = (&dns.Msg{}).SetReply(req)
+		resp.Rcode = 3841
+
+		return resp
+	}
+
+	if resp = nrw.Msg(); resp == nil {
+		resp = (&dns.Msg{}).SetReply(req)
+		resp.Rcode = 3842
+	}
+
+	return resp
 }
